@@ -59,13 +59,42 @@ def render(root, sc, trace, rng):
     return pkg
 
 
+SUBINCLUDE_VARIANTS = {
+    # name: (a/BUILD head, b/BUILD, expectOK)   -- //a:t1 is a plain genrule defined after the subinclude in a/BUILD
+    "chain": ('subinclude("//b:defs")\n', 'filegroup(name = "defs", srcs = ["b.build_defs"], visibility = ["PUBLIC"])\n', True),
+    "failing-subinclude-target": ('subinclude("//b:defs")\n',
+                                  'genrule(name = "defs", outs = ["b2.build_defs"], cmd = "exit 1", visibility = ["PUBLIC"])\n', False),
+    "missing-subinclude-target": ('subinclude("//b:nodefs")\n', 'filegroup(name = "defs", srcs = ["b.build_defs"], visibility = ["PUBLIC"])\n', False),
+    "missing-subinclude-package": ('subinclude("//nosuchpkg:defs")\n', 'filegroup(name = "defs", srcs = ["b.build_defs"], visibility = ["PUBLIC"])\n', False),
+    "subinclude-cycle": ('subinclude("//b:defs")\nfilegroup(name = "defs", srcs = ["a.build_defs"], visibility = ["PUBLIC"])\n',
+                         'subinclude("//a:defs")\nfilegroup(name = "defs", srcs = ["b.build_defs"], visibility = ["PUBLIC"])\n', False),
+}
+
+
+def render_subinclude(root, sc, trace):
+    head, bbuild, _ = SUBINCLUDE_VARIANTS[sc["variant"]]
+    os.makedirs(os.path.join(root, "a"), exist_ok=True)
+    os.makedirs(os.path.join(root, "b"), exist_ok=True)
+    with open(os.path.join(root, ".plzconfig"), "w") as f:
+        f.write("[build]\npath = /usr/local/bin:/usr/bin:/bin\n[cache]\ndir =\n")
+    cmd = ("printf '%%s\\n' '{\"ev\":\"Start\",\"t\":\"1\"}' >> %s; echo x > $OUT; printf '%%s\\n' '{\"ev\":\"End\",\"t\":\"1\",\"rc\":0}' >> %s" % (trace, trace))
+    with open(os.path.join(root, "a", "BUILD"), "w") as f:
+        f.write(head + 'genrule(\n    name = "t1",\n    outs = ["t1.out"],\n    cmd = %s,\n)\n' % json.dumps(cmd))
+    with open(os.path.join(root, "b", "BUILD"), "w") as f:
+        f.write(bbuild)
+    for n in ("a/a.build_defs", "b/b.build_defs"):
+        with open(os.path.join(root, n), "w") as f:
+            f.write("X = 1\n")
+    return {1: "a"}
+
+
 def run_scenario(ctx, idx, sc, seed, hang_timeout=40):
     rng = random.Random(seed * 7919 + idx)
     base = os.path.join(ctx.scratch, "s%d" % idx)
     root = os.path.join(base, "repo")
     trace = os.path.join(base, "trace.ndjson")
     os.makedirs(base, exist_ok=True)
-    pkg = render(root, sc, trace, rng)
+    pkg = render_subinclude(root, sc, trace) if sc.get("variant") else render(root, sc, trace, rng)
     threads = sc.get("threads") or rng.choice([1, 2, 4, 16])
     cmd = [vlib.build_plz(), "-p", "-v", "1", "-n", str(threads), "build"]
     if sc["keepGoing"]:
@@ -267,6 +296,12 @@ def common(ctx, prop):
                 c["fail"] = [t + 1 for t, f in enumerate(c["fault"]) if f == "cmdfail"]
             ctx.extra["parse_fault_scenarios_enumerated_by_tlc"] = len(pf)
             cases += pick(ctx, pf, 40, 8) if ctx.quick else pick(ctx, pf, 1500, 150)
+            # packages that block their parse on building a subinclude() target (the cycle variant only in thorough: it costs a timeout)
+            for v, (_, _, ok) in sorted(SUBINCLUDE_VARIANTS.items()):
+                if v == "subinclude-cycle" and ctx.quick:
+                    continue
+                for kg in (False, True):
+                    cases.append(dict(n=1, deps=[[]] if ok else [[2]], req=[1], fail=[], keepGoing=kg, expectOK=ok, variant=v, threads=4))
     results = []
     with ThreadPoolExecutor(max_workers=32) as ex:
         futs = [ex.submit(run_scenario, ctx, i, sc, ctx.seed) for i, sc in enumerate(cases)]
@@ -279,6 +314,8 @@ def common(ctx, prop):
                 kind = "cycle" if has_cycle(r["sc"]) else "acyclic"
                 sig = "C05 build-does-not-terminate graph=%s keep_going=%s failing-command=%s" % (
                     kind, r["sc"]["keepGoing"], bool(r["sc"]["fail"]))
+                if r["sc"].get("variant"):
+                    sig = "C05 build-does-not-terminate %s" % r["sc"]["variant"]
                 if prop == "C05":
                     ctx.violation(sig, dict(scenario=r["sc"], threads=r["threads"], pkgs=r["pkgs"], output=again["out"]))
             else:
